@@ -637,3 +637,43 @@ def rf7k(run):
                           % (fn, 'raises an error when labels precede endfunc' if errs else 'drops the labels that precede endfunc'),
                           line=(errs[0]['l'] if errs else site['l']))
     return n
+
+
+# ---------------------------------------------------------------------------------------------
+# RF75: a token's payload is read by the function that read its tag
+# ---------------------------------------------------------------------------------------------
+
+def rf75(run):
+    rule = 'RF75'
+    run.rule(rule, 'binary reader: the payload readers get_uint / get_int / get_float / get_double / get_ldouble are called either by each other '
+                   'or, in any other function, only after that function has itself fetched the tag byte (a get_byte call that dominates the '
+                   'payload read).  A function that obtains its token from read_token already has the payload in the attribute and must '
+                   'not read the stream again (the following bytes would be eaten)')
+    tu = run.tu('mir')
+    RAW = {'get_uint', 'get_int', 'get_float', 'get_double', 'get_ldouble'}
+    n = 0
+    for f in tu.func_list:
+        if not f.file.endswith('/mir.c') or f.name in RAW:
+            continue
+        calls = [x for x in f.walk() if x['k'] == 'CallExpr' and x.get('callee') in RAW]
+        if not calls:
+            continue
+        cfg = f.cfg
+        idom = cfg.dominators()
+        tags = [cfg.block_of(x) for x in f.walk() if x['k'] == 'CallExpr' and x.get('callee') == 'get_byte']
+        run.functions_analysed.add(('mir', f.name))
+        for c in calls:
+            b = cfg.block_of(c)
+            ok = any(t is not None and (t == b or cfg.dominates(t, b, idom)) for t in tags)
+            n += 1
+            run.ob(rule, (f.name, c['l']), ok, {'site': '%s:%d %s' % (f.relfile(), c['l'], f.name), 'payload read': F.src(c)[:50],
+                                               'tag fetched in the same function': ok})
+            if not ok:
+                via = sorted({x.get('callee') for x in f.walk() if x['k'] == 'CallExpr' and x.get('callee') in ('read_token', 'read_name')})
+                run.violation(rule, f, 'second read of a token payload', '%s calls %s although it does not fetch the tag byte itself (it gets its '
+                              'tokens from %s, which has already consumed the payload): the next bytes of the stream are read as the payload and '
+                              'the reader fails on, or misreads, what the writer produced' % (f.name, F.src(c)[:50], ', '.join(via) or 'its caller'),
+                              line=c['l'])
+    if n < 8:
+        raise F.AnalysisBroken('binary reader: only %d payload reads found' % n)
+    return n
